@@ -174,6 +174,9 @@ class ArcBasedRoutingProblem(RoutingProblem):
     def get_var_tuple_index(self, var_index):
         """Inverse of get_var_index"""
         self.enumerate_variables()
+        if var_index < 0:
+            # not a variable index (a negative list index would wrap around)
+            return None
         try:
             return self.var_mapping[var_index]
         except IndexError:
